@@ -131,6 +131,10 @@ func (v *printer) Printf(format string, args ...interface{}) {
 func (v *printer) Println(args ...interface{}) {
 	if v.enab.Enabled(v.level) {
 		v.print(sprintln(args))
+	} else if v.level >= zapcore.DPanicLevel {
+		// Like the other front ends, never skip an entry that may have to
+		// terminate: the logger drops the entry but still panics or exits.
+		v.print(sprintln(args))
 	}
 }
 
